@@ -6,9 +6,81 @@ import (
 	"crypto/tls"
 	"fmt"
 	"net"
+	"net/http"
 	"regexp"
+	"sync"
 	"time"
 )
+
+// InStream collects what a /io client receives in its response body (the
+// operator's input as the shell sees it).
+type InStream struct {
+	mu     sync.Mutex
+	got    []byte
+	err    error
+	Status int
+}
+
+// ReadInput starts reading the response (header, then chunked body) in the
+// background.
+func (c *IOConn) ReadInput() *InStream {
+	is := &InStream{}
+	go func() {
+		res, err := http.ReadResponse(c.br, &http.Request{Method: "POST"})
+		if err != nil {
+			is.mu.Lock()
+			is.err = err
+			is.mu.Unlock()
+			return
+		}
+		is.mu.Lock()
+		is.Status = res.StatusCode
+		is.mu.Unlock()
+		buf := make([]byte, 65536)
+		for {
+			n, err := res.Body.Read(buf)
+			is.mu.Lock()
+			is.got = append(is.got, buf[:n]...)
+			if err != nil {
+				is.err = err
+			}
+			is.mu.Unlock()
+			if err != nil {
+				return
+			}
+		}
+	}()
+	return is
+}
+
+// Len returns how many body bytes have arrived and whether the stream ended.
+func (is *InStream) Len() (int, bool) {
+	is.mu.Lock()
+	defer is.mu.Unlock()
+	return len(is.got), is.err != nil
+}
+
+// Got returns a copy of the body bytes received so far.
+func (is *InStream) Got() []byte {
+	is.mu.Lock()
+	defer is.mu.Unlock()
+	return append([]byte(nil), is.got...)
+}
+
+// WaitLen waits until at least n body bytes have arrived (or the stream ended).
+func (is *InStream) WaitLen(n int, d time.Duration) bool {
+	deadline := time.Now().Add(d)
+	for {
+		l, ended := is.Len()
+		if l >= n {
+			return true
+		}
+		if ended || time.Now().After(deadline) {
+			return false
+		}
+		time.Sleep(5 * time.Millisecond)
+	}
+}
 
 // IOConn is a raw /io client: a chunked POST whose body carries "shell
 // output" and whose response carries the operator's lines.
